@@ -1,6 +1,6 @@
 #!/bin/sh
 # runs every quick check for several VERIF_SEED values (and one random PYTHONHASHSEED); prints only non-held results
-cd /verif
+cd "$(dirname "$0")/.."
 for S in ${SEEDS:-0 1 2 3 7 12345}; do
   echo "== VERIF_SEED=$S"
   VERIF_SEED=$S VERIF_NO_EVIDENCE=1 tools/runall.sh "${1:-quick}" | grep -v "verdict=held" 
